@@ -313,6 +313,13 @@ fn run_binary(any: &str, home: &std::path::Path, mode: &str, q: &str, secs: u64)
         "syntax" => {
             cmd.arg("--syntax").arg("--").arg(q);
         }
+        "words" => {
+            // the query as the shell hands it over unquoted: one argument per blank-separated piece (any.rs joins them by one blank)
+            cmd.arg("--");
+            for piece in q.split(' ') {
+                cmd.arg(piece);
+            }
+        }
         _ => {
             cmd.arg("--").arg(q);
         }
@@ -374,7 +381,7 @@ pub fn cli(args: &[String]) -> i32 {
     spec.limit = 12;
     spec.exponent_limit = 12;
     for (qi, q) in queries.iter().enumerate() {
-        let mode = if let Some(m) = &forced { m.as_str() } else if modes4 { ["default", "exact", "describe", "describe_after"][qi % 4] } else { ["default", "exact", "describe"][qi % 3] };
+        let mode = if let Some(m) = &forced { m.as_str() } else if modes4 { ["default", "exact", "describe", "describe_after", "words"][qi % 5] } else { ["default", "exact", "describe"][qi % 3] };
         let describe_mode = mode == "describe" || mode == "describe_after";
         // the binary first, under a deadline: a query it never returns from is not evaluated in process (it would hang here too)
         let (stdout, stderr, code, timed_out) = run_binary(&any, &home, mode, q, 20);
